@@ -1,9 +1,66 @@
-//! C02 sessions (seeded driver). Fill in.
+//! C02 sessions: operands within a few units of each range limit, results just inside / just outside, durations with huge fields.
 use super::Tracer;
 use crate::gen::*;
+use crate::js::big;
 use crate::rng::Rng;
-use serde_json::json;
+use serde_json::{json, Value};
+
+fn edge_day(r: &mut Rng) -> i64 { if r.chance(1, 2) { MIN_DAY + r.range(0, 40) } else { MAX_DAY - r.range(0, 40) } }
+fn dt_json(day: i64, tns: i128) -> Value { let (y, m, d) = civil(day); let t = time_json(tns); json!({"y": y, "m": m, "d": d, "h": t["h"], "mi": t["mi"], "s": t["s"], "ms": t["ms"], "us": t["us"], "ns": t["ns"]}) }
+fn edge_tns(r: &mut Rng) -> i128 { match r.range(0, 4) { 0 => 0, 1 => 1, 2 => DAY_NS - 1, 3 => DAY_NS - 1 - r.range(0, 5000) as i128, _ => r.range128(0, DAY_NS - 1) } }
+fn in_dt(day: i64, t: i128) -> bool { (day > MIN_DAY || (day == MIN_DAY && t > 0)) && day <= MAX_DAY }
 
 pub fn drive(t: &mut Tracer, r: &mut Rng, n: usize) {
-    let _ = (t, r, n);
+    while t.n < n {
+        match r.range(0, 11) {
+            0 => { let d = if r.chance(1, 2) { MIN_DAY + r.range(-5, 5) } else { MAX_DAY + r.range(-5, 5) }; t.call("PlainDate.new", json!({"d": date_json(d)})); }
+            1 | 2 => { let d = edge_day(r); let target = if r.chance(1, 2) { MIN_DAY + r.range(-3, 3) } else { MAX_DAY + r.range(-3, 3) };
+                let delta = if r.chance(1, 6) { *r.pick(&[2147483647i64, -2147483647, 4_000_000_000, 90_000_000_000, -90_000_000_000]) } else { target - d };
+                let (op, dd) = if r.chance(1, 2) { ("PlainDate.add", delta) } else { ("PlainDate.subtract", -delta) };
+                t.call(op, json!({"recv": date_json(d), "dur": date_dur(0, 0, 0, dd as i128)})); }
+            3 => { let d = if r.chance(1, 2) { MIN_DAY + r.range(-2, 2) } else { MAX_DAY + r.range(-2, 2) }; t.call("PlainDateTime.new", json!({"dt": dt_json(d, edge_tns(r))})); }
+            4 | 5 => { let mut d = edge_day(r); let mut tn = edge_tns(r); if !in_dt(d, tn) { d = MIN_DAY; tn = 1; }
+                // aim at the limit +- a few ns
+                let cur = d as i128 * DAY_NS + tn;
+                let lim = if r.chance(1, 2) { MIN_DAY as i128 * DAY_NS } else { (MAX_DAY as i128 + 1) * DAY_NS - 1 };
+                let delta = lim - cur + r.range(-3, 3) as i128;
+                let (op, dd) = if r.chance(1, 2) { ("PlainDateTime.add", delta) } else { ("PlainDateTime.subtract", -delta) };
+                // split into days + ns so that the ns field stays exactly representable
+                let days = dd / DAY_NS; let rest = dd % DAY_NS;
+                t.call(op, json!({"recv": dt_json(d, tn), "dur": dur10(0, 0, 0, days, 0, 0, 0, 0, 0, rest)})); }
+            6 => { let d = if r.chance(1, 2) { MAX_DAY - r.range(0, 1) } else { MIN_DAY + r.range(0, 1) }; let u = *r.pick(&["day", "hour", "minute", "second", "millisecond", "microsecond", "nanosecond"]);
+                let mut tn = edge_tns(r); if !in_dt(d, tn) { tn = 1; }
+                let inc = if u == "day" { 1 } else { *r.pick(&time_incs(u)) };
+                t.call("PlainDateTime.round", json!({"recv": dt_json(d, tn), "st": {"smallest": u, "inc": inc, "mode": *r.pick(&MODES)}})); }
+            7 => { let d = if r.chance(1, 2) { MIN_DAY + r.range(0, 1) } else { MAX_DAY };
+                t.call(if r.chance(1, 2) { "PlainDate.toPlainDateTime" } else { "PlainDateTime.fromDateAndTime" }, json!({"recv": date_json(d), "time": time_json(edge_tns(r))}));
+                t.call("PlainDate.epochNsUtc", json!({"recv": date_json(d)})); }
+            8 => { let v = (if r.chance(1, 2) { MAX_INSTANT } else { -MAX_INSTANT }) + r.range(-3, 3) as i128;
+                t.call(if r.chance(1, 2) { "Instant.new" } else { "ZonedDateTime.new" }, json!({"ns": big(v)}));
+                let ms = (if r.chance(1, 2) { 8_640_000_000_000_000i128 } else { -8_640_000_000_000_000 }) + r.range(-2, 2) as i128;
+                t.call("Instant.fromEpochMs", json!({"ms": big(ms)})); }
+            9 => { let cur = (if r.chance(1, 2) { MAX_INSTANT } else { -MAX_INSTANT }) - (if r.chance(1, 2) { 1 } else { -1 }) * 0 + 0;
+                let cur = cur.clamp(-MAX_INSTANT, MAX_INSTANT) - cur.signum() * r.range(0, 5000) as i128;
+                let lim = if r.chance(1, 2) { MAX_INSTANT } else { -MAX_INSTANT };
+                let delta = lim - cur + r.range(-3, 3) as i128;
+                // exactly representable pieces: hours + ns
+                let h = delta / 3_600_000_000_000; let rest = delta % 3_600_000_000_000;
+                let (op, sg) = if r.chance(1, 2) { ("Instant.add", 1) } else { ("Instant.subtract", -1) };
+                t.call(op, json!({"recv": big(cur), "dur": dur10(0, 0, 0, 0, sg * h, 0, 0, 0, 0, sg * rest)})); }
+            10 => { let u = *r.pick(&["hour", "minute", "second", "millisecond", "microsecond", "nanosecond"]);
+                let per_day = DAY_NS / unit_ns(u);
+                let cands: Vec<i128> = [1i128, 2, 3, 4, 6, 8, 12, 24, 30, 60, 1000, 3600, 86400].iter().cloned().filter(|d| per_day % d == 0).collect();
+                let inc = *r.pick(&cands);
+                let cur = (if r.chance(1, 2) { MAX_INSTANT } else { -MAX_INSTANT }); let cur = cur - cur.signum() * r.range128(0, inc * unit_ns(u));
+                t.call("Instant.round", json!({"recv": big(cur), "st": {"smallest": u, "inc": inc as i64, "mode": *r.pick(&MODES)}})); }
+            _ => { // durations at the limit
+                let p53: i128 = 1 << 53;
+                let s = p53 - 1 - r.range(0, 2) as i128; let sg: i128 = if r.chance(1, 2) { 1 } else { -1 };
+                let a = dur10(0, 0, 0, 0, 0, 0, sg * s, 0, 0, 0);
+                let b = dur10(0, 0, 0, 0, 0, 0, sg * r.range(0, 3) as i128, sg * r.range(0, 1000) as i128, 0, sg * r.range(0, 1_000_000_000) as i128);
+                t.call("Duration.add", json!({"recv": a, "other": b}));
+                t.call("Duration.new", json!({"dur": dur10(0, 0, 0, 0, 0, 0, sg * s, sg * r.range(990, 1010) as i128, sg * 999, sg * r.range(990, 1010) as i128)})); }
+        }
+        t.reset();
+    }
 }
